@@ -81,6 +81,7 @@ def check_pair(a, b, costs, mon, ctx, light=False):
     sc, ic, dc = costs
     r = ref_lev(a, b, sc, ic, dc)
     d = sa.levenshtein_distance(a, b, sc, ic, dc)
+    mon.observe('distance and alignments', [float(d), sa.levenshtein_alignment(a, b, sc, ic, dc), float(sa.levenshtein_distance_substring(a, b))])
     mon.count('dist_checked')
     if d != r:
         mon.violation('distance', {'a': a, 'b': b, 'costs': costs, 'got': float(d), 'expected': r})
